@@ -82,6 +82,10 @@ def TEMPLATES():
         ('base.norm', 'v', [G, G, G], lambda a: b.norm([a[0], a[1], a[2]])),
         ('base.norm', 'array', [G, G, G], lambda a: b.norm(np.array([a[0], a[1], a[2]]))),
         ('base.normsq', 'v', [G, G, G], lambda a: b.normsq([a[0], a[1], a[2]])),
+        # vectors whose sum of squares is a single power (one component, or the others zero): sqrt(x**2) is |x|, not x
+        ('base.norm', '[x]', [G], lambda a: b.norm([a[0]])), ('base.norm', '[x,0,0]', [G], lambda a: b.norm([a[0], 0, 0])),
+        ('base.norm', '[0,0.0,z]', [G], lambda a: b.norm([0, 0.0, a[0]])), ('base.norm', '[x*y,0]', [G, G], lambda a: b.norm([a[0] * a[1], 0])),
+        ('base.norm', '[x-y,0,0]', [G, G], lambda a: b.norm([a[0] - a[1], 0, 0])),
         ('base.conj', 'q', [G] * 4, lambda a: b.conj(list(a))),
         ('base.qpow', 'q,3', [G] * 4, lambda a: b.qpow(list(a), 3)),
         ('base.qpow', 'q,-2', [G] * 4, lambda a: b.qpow(list(a), -2)),
@@ -117,6 +121,10 @@ def TEMPLATES():
         ('SE3.simplify', 'simplify', [A, L, L, L], lambda a: sm.SE3(T3(a), check=False).simplify() if _issym(a) else sm.SE3(T3(a), check=False)),
         ('SO2.simplify', 'simplify', [A], lambda a: sm.SO2(b.rot2(a[0]) @ b.rot2(a[0]), check=False).simplify() if _issym(a) else sm.SO2(b.rot2(a[0]) @ b.rot2(a[0]), check=False)),
         ('SE2.simplify', 'simplify', [A, L, L], lambda a: sm.SE2(_trot2sym(a), check=False).simplify() if _issym(a) else sm.SE2(b.trot2(a[0], t=[a[1], a[2]]), check=False)),
+        # ... of objects whose array is a transposed view (what SO3.inv() holds) or Fortran-ordered
+        ('SO3.simplify', 'inv().simplify()', [A, A], lambda a: sm.SO3(R3(a), check=False).inv().simplify() if _issym(a) else sm.SO3(R3(a), check=False).inv()),
+        ('SE3.simplify', 'F-ordered.simplify()', [A, L, L, L], lambda a: sm.SE3(np.asfortranarray(T3(a)), check=False).simplify() if _issym(a) else sm.SE3(T3(a), check=False)),
+        ('SE3.simplify', '(X*Y.inv()).simplify()', [A, L, L, L, A], lambda a: ((sm.SE3(T3(a), check=False) * sm.SE3.Ry(a[4]).inv()).simplify() if _issym(a) else sm.SE3(T3(a), check=False) * sm.SE3.Ry(a[4]).inv())),
         ('Twist3.Rx', 'theta', [A], lambda a: sm.Twist3.Rx(a[0])), ('Twist3.Ry', 'theta', [A], lambda a: sm.Twist3.Ry(a[0])),
         ('Twist3.Rz', 'theta', [A], lambda a: sm.Twist3.Rz(a[0])),
         # pose operators over symbolic values
